@@ -36,8 +36,14 @@ import (
 	govtypes "github.com/cosmos/cosmos-sdk/x/gov/types"
 	"github.com/evmos/evmos/v16/encoding"
 
+	sdkmath "cosmossdk.io/math"
+	ethcommon "github.com/ethereum/go-ethereum/common"
+
 	exocoreapp "github.com/ExocoreNetwork/exocore/app"
 	"github.com/ExocoreNetwork/exocore/utils"
+	assetskeeper "github.com/ExocoreNetwork/exocore/x/assets/keeper"
+	assetstypes "github.com/ExocoreNetwork/exocore/x/assets/types"
+	delegationtypes "github.com/ExocoreNetwork/exocore/x/delegation/types"
 	oraclekeeper "github.com/ExocoreNetwork/exocore/x/oracle/keeper"
 	oraclecommon "github.com/ExocoreNetwork/exocore/x/oracle/keeper/common"
 	oracletypes "github.com/ExocoreNetwork/exocore/x/oracle/types"
@@ -85,6 +91,8 @@ type OEvent struct {
 		Restart bool   `json:"restart"`
 		F       string `json:"f"`     // Upd: feeder whose EndBlock is set
 		End     uint64 `json:"end"`   // Upd: new EndBlock
+		V       string `json:"v"`     // Stake: validator whose operator receives a delegation
+		X       int64  `json:"x"`     // Stake: whole units of the staking asset
 		Tok     string `json:"tok"`   // Add: token
 		Start   uint64 `json:"start"` // Add: StartBaseBlock
 		Iv      uint64 `json:"iv"`    // Add: Interval
@@ -379,6 +387,38 @@ func (n *oracleNode) deliverParams(tf *oracletypes.TokenFeeder) (ok bool, code u
 		return false, 1, lg, false
 	}
 	return true, 0, "", false
+}
+
+// operator address of validator v ("v1" = operator o1 of NewWorld: operators sorted by bech32 address)
+func oracleOpAddr(nOps int, v string) sdk.AccAddress {
+	var addrs []sdk.AccAddress
+	for i := 1; i <= nOps; i++ {
+		addrs = append(addrs, sdk.AccAddress(EthKey(fmt.Sprintf("operator%d", i)).PubKey().Address().Bytes()))
+	}
+	sort.Slice(addrs, func(i, j int) bool { return addrs[i].String() < addrs[j].String() })
+	return addrs[idNum(v)-1]
+}
+
+// Stake: staker s1 deposits x whole units of the staking asset (6 decimals) and delegates them to the operator of
+// validator v (keeper level, on the deliver-state context): at the next dogfood epoch end x/operator recomputes
+// that operator's voting power and x/dogfood emits a validator update for THIS validator only.
+func (n *oracleNode) stake(v string, x int64) (ok bool, log string, panicked bool) {
+	defer func() {
+		if r := recover(); r != nil {
+			ok, panicked, log = false, true, fmt.Sprint(r)
+		}
+	}()
+	ctx := n.ctx()
+	st := AddrOf(EthKey("staker1")).Bytes()
+	aaddr := ethcommon.BytesToAddress(h256("asset:lst")[:20]).Bytes()
+	amt := sdkmath.NewIntWithDecimal(x, 6)
+	if err := n.app.AssetsKeeper.PerformDepositOrWithdraw(ctx, &assetskeeper.DepositWithdrawParams{ClientChainLzID: LzID, Action: assetstypes.DepositLST, AssetsAddress: aaddr, StakerAddress: st, OpAmount: amt}); err != nil {
+		return false, err.Error(), false
+	}
+	if err := n.app.DelegationKeeper.DelegateTo(ctx, &delegationtypes.DelegationOrUndelegationParams{ClientChainID: LzID, Action: assetstypes.DelegateTo, AssetsAddress: aaddr, OperatorAddress: oracleOpAddr(len(n.cfg.Pw), v), StakerAddress: st, OpAmount: amt}); err != nil {
+		return false, err.Error(), false
+	}
+	return true, "", false
 }
 
 // EndBlock(h) + Commit
@@ -703,6 +743,18 @@ func (n *oracleNode) project() jm {
 	st["afd"] = feedersOfTree(rget(agcT, "params"))
 	st["cfd"] = feedersOfTree(rget(csT, "params", "params"))
 	st["cvu"], st["cpu"] = rbool(rget(csT, "validators", "update")), rbool(rget(csT, "params", "update"))
+	// the cache's own validator map (cs.validators.validators) - distinct from the aggregator context's
+	cv := jm{}
+	for _, kv := range rmap(rget(csT, "validators", "validators")) {
+		cv[n.vid(rstr(kv.K))] = rint(kv.V)
+	}
+	st["cv"] = cv
+	// x/dogfood's stored validator set (what a restarted node reads)
+	dv := jm{}
+	for _, val := range n.app.StakingKeeper.GetAllExocoreValidators(ctx) {
+		dv[n.vid(sdk.ConsAddress(val.Address).String())] = val.Power
+	}
+	st["dv"] = dv
 	st["cmsgs"] = n.cacheMsgItems(rget(csT, "msg"))
 	upd := []string{}
 	for _, u := range rlist(rwalk(roots["updatedFeederIDs"])) {
@@ -730,6 +782,9 @@ func (n *oracleNode) runEvents(events []OEvent, startIdx int, stopAfter int, hon
 		case "Upd":
 			ok, code, lg, pan := n.deliverUpd(e.A.F, e.A.End)
 			emit(i, jm{"ev": "Upd", "a": jm{"f": e.A.F, "end": e.A.End}, "ok": ok, "code": code, "err": lg, "panic": pan, "st": n.project()})
+		case "Stake":
+			ok, lg, pan := n.stake(e.A.V, e.A.X)
+			emit(i, jm{"ev": "Stake", "a": jm{"v": e.A.V, "x": e.A.X}, "ok": ok, "code": 0, "err": lg, "panic": pan, "st": n.project()})
 		case "Add":
 			ok, code, lg, pan := n.deliverParams(&oracletypes.TokenFeeder{TokenID: idNum(e.A.Tok), RuleID: 1, StartBaseBlock: e.A.Start, Interval: e.A.Iv, StartRoundID: e.A.Sr})
 			emit(i, jm{"ev": "Add", "a": jm{"tok": e.A.Tok, "start": e.A.Start, "iv": e.A.Iv, "sr": e.A.Sr}, "ok": ok, "code": code, "err": lg, "panic": pan, "st": n.project()})
